@@ -792,10 +792,15 @@ def _len(x):
 # ---------------------------------------------------------------------------------------------
 # shadows
 # ---------------------------------------------------------------------------------------------
+def _unshadow(c):
+    return {"float": builtins.float, "int": builtins.int, "bool": builtins.bool}.get(getattr(c, "__name__", None), c) if type(c).__name__ == "Meta" else c
+
+
 def _isinstance(obj, cls):
     if isinstance(obj, Sym):
         classes = cls if isinstance(cls, tuple) else (cls,)
         for c in classes:
+            c = _unshadow(c)
             if isinstance(c, tuple):
                 if _isinstance(obj, c):
                     return True
@@ -857,6 +862,32 @@ def _float(x=0.0):
     if isinstance(x, Sym):
         raise Unsupported("float(%s)" % type(x).__name__)
     return builtins.float(x)
+
+
+def type_shadow(real, call):
+    """a stand-in for a builtin type name (float, bool, int): calling it dispatches to `call`; isinstance /
+    issubclass against it behave like the real type (so `isinstance(x, (int, float))` in the code still works)"""
+
+    class Meta(type):
+        def __instancecheck__(cls, obj):
+            return builtins.isinstance(obj, real)
+
+        def __subclasscheck__(cls, sub):
+            return builtins.issubclass(sub, real)
+
+        def __call__(cls, *a, **kw):
+            return call(*a, **kw)
+
+        def __eq__(cls, o):
+            return o is real or o is cls
+
+        def __hash__(cls):
+            return hash(real)
+
+        def __repr__(cls):
+            return repr(real)
+
+    return Meta(real.__name__, (), {"__doc__": "shadow of %s" % real.__name__, "__name__": real.__name__})
 
 
 class _NumpyShadow:
@@ -1036,11 +1067,11 @@ def reglobal(module, extra=None, numpy_extra=None, int_shadow=True):
     g = dict(module.__dict__)
     g["isinstance"] = _isinstance
     if int_shadow:
-        g["int"] = _int
+        g["int"] = type_shadow(builtins.int, _int)
     g["abs"] = _abs
     g["type"] = _type
-    g["bool"] = _bool
-    g["float"] = _float
+    g["bool"] = type_shadow(builtins.bool, _bool)
+    g["float"] = type_shadow(builtins.float, _float)
     g["range"] = _range
     g["len"] = _len
     if "numpy" in g:
